@@ -260,28 +260,28 @@ class Properties:
             if self.packetType not in self.properties[self.getIdentFromName(name)][1]:
                 raise MQTTException(f"Property {name} does not apply to packet type {PacketTypes.Names[self.packetType]}")
 
-            # Check for forbidden values
-            if not isinstance(value, list):
+            # Check for forbidden values (each element when a list is assigned)
+            for item in (value if isinstance(value, list) else [value]):
                 if name in ["ReceiveMaximum", "TopicAlias"] \
-                        and (value < 1 or value > 65535):
+                        and (item < 1 or item > 65535):
 
                     raise MQTTException(f"{name} property value must be in the range 1-65535")
                 elif name in ["TopicAliasMaximum"] \
-                        and (value < 0 or value > 65535):
+                        and (item < 0 or item > 65535):
 
                     raise MQTTException(f"{name} property value must be in the range 0-65535")
                 elif name in ["SubscriptionIdentifier"] \
-                        and (value < 1 or value > 268435455):
+                        and (item < 1 or item > 268435455):
 
                     raise MQTTException(f"{name} property value must be in the range 1-268435455")
                 elif name in ["MaximumPacketSize"] \
-                        and (value < 1 or value > 4294967295):
+                        and (item < 1 or item > 4294967295):
 
                     raise MQTTException(f"{name} property value must be in the range 1-4294967295")
                 elif name in ["RequestResponseInformation", "RequestProblemInformation", "PayloadFormatIndicator",
                               "MaximumQoS", "RetainAvailable", "WildcardSubscriptionAvailable",
                               "SubscriptionIdentifierAvailable", "SharedSubscriptionAvailable"] \
-                        and (value != 0 and value != 1):
+                        and (item != 0 and item != 1):
 
                     raise MQTTException(
                         f"{name} property value must be 0 or 1")
